@@ -133,6 +133,28 @@ Section RoundTrip.
     destruct (slice_identity utf8_valid (map to_mval js) Hall) as (Sd & Sok & _).
     cbn zeta in *. rewrite Rd, Sd, map_map. repeat split; try assumption; apply json_of_docs_events.
   Qed.
+
+  (* JSON -> MessagePack keeps the value: what either MessagePack loop reads from
+     xt's output is the event list of the same value - null, booleans, integers
+     with their sign and magnitude, floats with the identical 64 bits, strings
+     byte for byte, arrays and maps entry by entry in the same order. *)
+  Theorem json_to_msgpack_same_value js :
+    Forall jencodable js ->
+    let mp := flat_map enc_evs (map jevs js) in
+    fst (transcode_reader utf8_valid mp) = map evs (map to_mval js) /\
+    fst (transcode_slice utf8_valid mp) = map evs (map to_mval js) /\
+    mm_ok (transcode_reader utf8_valid mp) = true /\ mm_ok (transcode_slice utf8_valid mp) = true.
+  Proof.
+    intros Henc. cbn zeta.
+    assert (E : flat_map enc_evs (map jevs js) = flat_map enc_val (map to_mval js)).
+    { induction js as [|j js IH]; [reflexivity|]. inversion Henc; subst. cbn [map flat_map].
+      rewrite (same_encoding (to_mval j) j (carries_to_mval j)). now rewrite IH. }
+    rewrite E.
+    assert (Hall : Forall (encodable utf8_valid) (map to_mval js)) by (rewrite Forall_map; exact Henc).
+    destruct (reader_identity utf8_valid (map to_mval js) Hall) as (Rd & Rok & _).
+    destruct (slice_identity utf8_valid (map to_mval js) Hall) as (Sd & Sok & _).
+    cbn zeta in *. auto.
+  Qed.
 End RoundTrip.
 
 (* non-vacuity *)
